@@ -116,8 +116,9 @@ impl ReplicationFetcher {
         // Remove any outdated entries in `to_be_fetched`
         self.remove_stored_keys(locally_stored_keys);
 
-        // Special case for single new key
-        if new_incoming_keys.len() == 1 {
+        // Special case for a single-key list (replication of a fresh record). A periodic list that
+        // merely shrank to one new key after the filtering above still goes through the range check.
+        if total_incoming_keys == 1 && new_incoming_keys.len() == 1 {
             let (record_address, record_type) = new_incoming_keys[0].clone();
 
             let new_data_key = (record_address.to_record_key(), record_type);
